@@ -54,7 +54,7 @@ func wfSpace(c *harness.Ctx) *envSpaces {
 		o2 := o
 		o2.Names = []string{"A"}
 		o2.Shifts = gen.RepresentativeShifts[:4]
-		o2.DupLabels = false
+		o2.DupLabels = true
 		b2 := gen.Annotated(gen.Types(2, o2), anns[:2])
 		s = mkSpaces(
 			gen.EnvSpace{Names: []string{"A", "B"}, Bodies: b1, N: 2},
@@ -324,6 +324,8 @@ func checkC10Annotation(e0 *ref.Env, a0 ref.AnnTy, r *harness.Rec) {
 		e.String() + fmt.Sprintf("let g(x : %s) : %s = fwd self x\n", ts, ts),
 		e.String() + fmt.Sprintf("assuming z : %s\nprc[p] : %s = fwd self z\n", ts, ts),
 		e.String() + fmt.Sprintf("let h(x : %s) : %s = y : %s <- new fwd self x; fwd self y\n", ts, ts, ts),
+		e.String() + fmt.Sprintf("let k(x : %s, y : 1) : 1 = drop x; wait y; close self\n", ts),
+		e.String() + fmt.Sprintf("assuming z : %s, w : 1\nprc[p] : 1 = drop z; wait w; close self\n", ts),
 	} {
 		res := TypecheckText(text, nil, nil)
 		r.Add("evaluations", 1)
@@ -336,7 +338,11 @@ func checkC10Annotation(e0 *ref.Env, a0 ref.AnnTy, r *harness.Rec) {
 			viol(r, "crash: "+NormMsg(strings.Join(res.Panics, ";")), "typechecker crashed or gave no answer: "+strings.Join(res.Panics, "; "), text, nil)
 			continue
 		}
-		pos := []string{"signature", "assumed name/process", "typed cut"}[vi]
+		pos := []string{"signature", "assumed name/process", "typed cut", "first parameter", "first assumed name"}[vi]
+		if vi >= 3 && werr == "" {
+			// positions 3 and 4 drop x: only meaningful for the ill-formed direction (a well-formed linear type may not be dropped)
+			continue
+		}
 		if res.TypeErr == "" && werr != "" {
 			b := dropAnnBeforeShift(a)
 			if (b.Ann != a.Ann || b.AnnStr != a.AnnStr) && e.CheckType(b, dm) == "" {
